@@ -21,6 +21,8 @@ pub enum Ev {
     Reset,
     ResetElapsed,
     Rewind,
+    /// the same backwards move made with dec()
+    RewindDec,
     Finish,
     Abandon,
 }
@@ -73,6 +75,12 @@ fn apply(pb: &ProgressBar, ev: &Ev, pos: &mut u64) {
             clock::advance_ns(S);
             *pos /= 2;
             pb.set_position(*pos);
+        }
+        Ev::RewindDec => {
+            clock::advance_ns(S);
+            let d = *pos - *pos / 2;
+            *pos /= 2;
+            pb.dec(d);
         }
         Ev::Finish => {
             clock::advance_ns(S);
@@ -130,12 +138,13 @@ impl Hist for C09 {
                     match e {
                         Ev::Inc(_, d) => pos += d,
                         Ev::Reset => pos = 0,
-                        Ev::Rewind => pos /= 2,
+                        Ev::Rewind | Ev::RewindDec => pos /= 2,
                         _ => {}
                     }
                 }
                 if pos >= 2 {
                     v.push(Ev::Rewind);
+                    v.push(Ev::RewindDec);
                 }
                 v
             }
@@ -169,7 +178,7 @@ impl Hist for C09 {
         };
         let finished = matches!(hist.last(), Some(Ev::Finish | Ev::Abandon));
         // segments since the last reset-like event
-        let k = hist.iter().rposition(|e| matches!(e, Ev::ResetEta | Ev::Reset | Ev::ResetElapsed | Ev::Rewind));
+        let k = hist.iter().rposition(|e| matches!(e, Ev::ResetEta | Ev::Reset | Ev::ResetElapsed | Ev::Rewind | Ev::RewindDec));
         let after: &[Ev] = match k {
             Some(k) => &hist[k + 1..],
             None => hist,
@@ -347,7 +356,7 @@ pub fn meta(tier: Tier) -> Meta {
     let (d, ds) = if tier == Tier::Quick { (4, 5) } else { (6, 8) };
     Meta {
         level: "model_checking",
-        rule: format!("virtual-time histories on a hidden bar of length 1e18: every sequence of <= {d} events from (gap in {{0,1 ms,7 ms,1 s,15 s,1 h,1 d}}) x inc({{1,1e3,1e9}}) (gap 0 = an update the estimator cannot sample) plus reset_eta/reset/reset_elapsed/backwards seek/finish, and every steady-rate gap sequence of <= {ds} updates for rates 1,1e3,1e6,1e12 per second; after every history per_sec/eta/duration/elapsed are read at 8 instants from +1 ns to +30 d with the clock frozen; laws L1-L6 incl. a differential fresh-bar oracle for forgetfulness; a state is the vector of reported rates; non-trivial = at least one progress sample since the last reset"),
+        rule: format!("virtual-time histories on a hidden bar of length 1e18: every sequence of <= {d} events from (gap in {{0,1 ms,7 ms,1 s,15 s,1 h,1 d}}) x inc({{1,1e3,1e9}}) (gap 0 = an update the estimator cannot sample) plus reset_eta/reset/reset_elapsed/backwards seek (set_position and dec)/finish/abandon, and every steady-rate gap sequence of <= {ds} updates for rates 1,1e3,1e6,1e12 per second; after every history per_sec/eta/duration/elapsed are read at 8 instants from +1 ns to +30 d with the clock frozen; laws L1-L6 incl. a differential fresh-bar oracle for forgetfulness; a state is the vector of reported rates; non-trivial = at least one progress sample since the last reset"),
         assumptions: vec!["virtual clock by clock_gettime interposition; queries move the clock forward and back without touching the bar".into(), "L4 split: a rise during a stall that begins with the estimate below the newest sample's rate is the documented double-smoothing behaviour (known finding); everything else is a violation".into()],
         bounds: json!({"depth_transient": d, "depth_steady": ds, "query_offsets_ns": QUERIES}),
         exhaustive: true,
